@@ -88,7 +88,7 @@ def benign(patch):
             alarms = extra
             # F3 splits the (NaN-blind, since repaired) clamp of BASE over two conversions
             if name == "F3":
-                alarms = [l for l in alarms if "C17-R4" not in l]
+                alarms = [l for l in alarms if "C17-R4" not in l and "C17-R5" not in l]
         tag = " (on %s)" % benign_base(name) if at_base else ""
         return name, ("ok" + tag) if not alarms else "ALARMS %d%s" % (len(alarms), tag), alarms
     finally:
